@@ -20,6 +20,7 @@ FACT_VALUES = {
     "mixed": lambda r, k: [0.0, -3.0, 5.0, 9.0, -17.0][(r + 2 * k) % 5],
 }
 POS_W = [0.5, 1.0, 2.0, 4.0, 8.0]  # row-specific positive weights (symbol 'P'): exactly representable
+NEG_W = [-1.0, -2.0, -0.5, -4.0, -0.25]  # symbol 'N': negative (dyadic) weights - a cell's weight total may be negative or cancel to zero
 DEC_W = [0.1, 0.2, 0.3, 0.7, 1.1]  # symbol 'D': sums that do NOT cancel exactly in binary floating point (0.1 + 0.2 != 0.3)
 
 
@@ -73,6 +74,8 @@ def make_weights(N, spec):
             w.append(POS_W[r % len(POS_W)]); ok.append(True)
         elif s == "D":
             w.append(DEC_W[r % len(DEC_W)]); ok.append(True)
+        elif s == "N":
+            w.append(NEG_W[r % len(NEG_W)]); ok.append(True)
         elif s == "1":
             w.append(1.0); ok.append(True)
         elif s == "Z":
